@@ -83,52 +83,76 @@ def attribute(ev):
 _REJ = re.compile(r'^<<"REJECT", (\d+), "(.*)">>\s*$', re.M)
 
 
-def validate(trace_path, wd, name="trace", max_rounds=8, module="Trace_Sample", invs=TRACE_INVS):
-    """Validate an ndjson trace; on rejection cut the offending run out and continue.
-    Returns (accepted_runs, rejections[list of dict], tlc_states, tlc_generated)."""
-    lines = [l for l in open(trace_path) if l.strip()]
+def _validate_chunk(path, wd, name, module, invs):
+    cfg = core.cfg_text(spec="TSpec", invariants=invs, constraint="Track", postcondition="TraceAccepted")
+    r = core.tlc(module, cfg, name, wd, workers=1, timeout=1800, coverage=False, dfs=True, env_extra={"TRACE": path}, xmx="2g")
+    m = _REJ.search(r.out)
+    if r.violated and r.violated != "postcondition" and not m:
+        return r, {"invariant": r.violated}
+    if not m:
+        return r, None
+    return r, {"line": int(m.group(1)), "event": json.loads(core.unquote_tla_string(m.group(2)))}
+
+
+def validate(trace_path, wd, name="trace", max_rounds=4, module="Trace_Sample", invs=TRACE_INVS, chunks=12):
+    """Validate an ndjson trace made of independent runs (each starts with a Reset event).  The runs are dealt into
+    `chunks` files validated by parallel TLC processes; a chunk stops at its first rejected run, which is recorded, cut
+    out, and the chunk is validated again (up to max_rounds times), so that rejections of one kind do not hide others.
+    Returns (accepted_runs, rejections, tlc_states, tlc_generated)."""
+    from concurrent.futures import ThreadPoolExecutor
     core.lint_trace_file(trace_path)
-    rejections = []
-    states = gen = 0
-    cur = trace_path
+    runs, cur = [], []
+    for l in open(trace_path):
+        if not l.strip():
+            continue
+        if '"ev":"Reset"' in l.replace(" ", "") and cur:
+            runs.append(cur); cur = []
+        cur.append(l)
+    if cur:
+        runs.append(cur)
+    nchunks = max(1, min(chunks, len(runs) // 20 or 1))
+    groups = [runs[i::nchunks] for i in range(nchunks)]
+    rejections, states, gen = [], 0, 0
+    pending = list(range(nchunks))
+    unvalidated = 0
     for rnd in range(max_rounds):
-        cfg = core.cfg_text(spec="TSpec", invariants=invs, constraint="Track", postcondition="TraceAccepted")
-        r = core.tlc(module, cfg, "%s_%d" % (name, rnd), wd, workers=1, timeout=1800, coverage=False, dfs=True,
-                     env_extra={"TRACE": cur}, xmx="6g")
-        states += r.distinct
-        gen += r.generated
-        m = _REJ.search(r.out)
-        if r.violated and r.violated != "postcondition" and not m:
-            # an invariant of the machine failed on the validated behaviour
-            rejections.append({"line": None, "event": {"ev": "Invariant", "name": r.violated}, "run": None, "invariant": r.violated})
+        if not pending:
             break
-        if not m:
-            break
-        ln = int(m.group(1))
-        ev = json.loads(core.unquote_tla_string(m.group(2)))
-        # locate the run containing line ln (1-based) in the current file
-        cl = [l for l in open(cur) if l.strip()]
-        start = ln - 1
-        while start > 0 and json.loads(cl[start]).get("ev") != "Reset":
-            start -= 1
-        end = ln
-        while end < len(cl) and json.loads(cl[end]).get("ev") != "Reset":
-            end += 1
-        run = [json.loads(x) for x in cl[start:end]]
-        rejections.append({"line": ln, "event": ev, "run": run})
-        cl = cl[:start] + cl[end:]
-        cur = os.path.join(wd, "%s_cut%d.ndjson" % (name, rnd))
-        with open(cur, "w") as f:
-            f.writelines(cl)
-        if not cl:
-            break
+        paths = {}
+        for ci in pending:
+            pth = os.path.join(wd, "%s_c%d_r%d.ndjson" % (name, ci, rnd))
+            with open(pth, "w") as f:
+                for run in groups[ci]:
+                    f.writelines(run)
+            paths[ci] = pth
+        with ThreadPoolExecutor(max_workers=min(8, len(pending))) as ex:
+            futs = {ci: ex.submit(_validate_chunk, paths[ci], wd, "%s_c%d_r%d" % (name, ci, rnd), module, invs) for ci in pending}
+            results = {ci: f.result() for ci, f in futs.items()}
+        nxt = []
+        for ci in pending:
+            r, rej = results[ci]
+            states += r.distinct; gen += r.generated
+            if rej is None:
+                continue
+            if "invariant" in rej:
+                rejections.append({"line": None, "event": {"ev": "Invariant", "name": rej["invariant"]}, "run": None})
+                continue
+            # locate the run containing that line of the chunk file
+            ln, acc = rej["line"], 0
+            for k, run in enumerate(groups[ci]):
+                if acc < ln <= acc + len(run):
+                    rejections.append({"line": ln, "event": rej["event"], "run": [json.loads(x) for x in run]})
+                    del groups[ci][k]
+                    break
+                acc += len(run)
+            if groups[ci]:
+                nxt.append(ci)
+        pending = nxt
     else:
-        # the remaining runs were not validated; what was found is reported
-        core.log("stopped after %d rejected runs; the rest of the trace was not validated" % max_rounds)
-        nruns = sum(1 for l in lines if '"Reset"' in l)
-        return 0, rejections, states, gen
-    nruns = sum(1 for l in lines if '"Reset"' in l)
-    return nruns - len(rejections), rejections, states, gen
+        unvalidated = sum(len(groups[ci]) for ci in pending)
+        if unvalidated:
+            core.log("stopped after %d rounds; %d runs in still-rejecting chunks were not validated again" % (max_rounds, unvalidated))
+    return len(runs) - len(rejections) - unvalidated, rejections, states, gen
 
 
 def gen_graphs(tier, wd, seed):
